@@ -70,7 +70,7 @@ def run(rep, wd, tier, seed):
     cfg = write_cfg(os.path.join(wd, 'MC_Inspect.cfg'), 'CONSTANTS P = 12 T = 2 S = 30 MaxBlocks = 8\nSPECIFICATION Spec\n'
                     'INVARIANT ProbeNew\nCHECK_DEADLOCK FALSE\n')
     res = core.run_tlc('MC_Inspect', cfg, wd, workers=1)
-    core.require_ok(res, 'MC_Inspect')
+    core.require_ok(res, 'MC_Inspect', min_states=8)
     rep.add_tlc('MC_Inspect (scaled probe rule)', res)
     bc = PKG['bit_config']
     maxlen = drv.max_vbs_len()
